@@ -198,10 +198,16 @@ func VerifC08Siblings() {
 		case 2:
 			snaps = append(snaps, c08Take(c16Reload(parent), "reloaded"))
 		case 3:
-			parent.GetBlockID(Fact{Predicate{Name: sc.name, IDs: []Term{Integer(7)}}})
+			if vChoose("lookup", 2) == 0 {
+				// a fact that is not there: its name may be one the token knows, its string is new to the token
+				parent.GetBlockID(Fact{Predicate{Name: sc.name, IDs: []Term{Integer(7), String("zz-unseen"), Set{String("zz-unseen-2")}}}})
+			} else {
+				// a fact that is there
+				parent.GetBlockID(Fact{Predicate{Name: "p", IDs: []Term{Integer(0)}}})
+			}
 		case 4:
 			if az, err := NewVerifier(parent, gPatient); err == nil {
-				az.AddFact(Fact{Predicate{Name: sc.name, IDs: []Term{Integer(9)}}})
+				az.AddFact(Fact{Predicate{Name: sc.name, IDs: []Term{Integer(9), String("zz-authorizer-only")}}})
 				az.AddPolicy(DefaultAllowPolicy)
 				az.Authorize()
 			}
